@@ -456,6 +456,58 @@ fn check_emitters(run: &Run, cases: u64) {
                 }
             }
         }
+        // 4. indexes written by a backup whose storage refuses one write: for every write of a
+        // first backup of this tree (blocks, hunks, head, tail), a fresh archive gets that backup
+        // with exactly that write failing; whatever the backup then does (stop, or report the
+        // error and go on), every hunk it wrote and the listing of the version are in order
+        if case % 2 == 1 {
+            let probe = sc.join("probe4");
+            cs::create_archive(&probe);
+            let ic = crate::icept::Icept::new(&probe, crate::icept::Mode::Log, 0);
+            let _ = cs::backup(ic.transport(1), &src, o, &[], None);
+            let writes: Vec<(usize, String)> = ic.log().iter().filter(|e| e.verb == crate::icept::V::Write).map(|e| (e.idx, e.path.clone())).collect();
+            crate::scratch::rm(&probe);
+            for (wi, (k, path)) in writes.iter().enumerate() {
+                let kind = [conserve::transport::ErrorKind::Other, conserve::transport::ErrorKind::PermissionDenied, conserve::transport::ErrorKind::Connect][wi % 3];
+                let a4 = sc.join("arch4");
+                cs::create_archive(&a4);
+                let ic = crate::icept::Icept::new(&a4, crate::icept::Mode::FailAt { k: *k, kind }, case);
+                let b4 = cs::backup(ic.transport(1), &src, o, &[], None);
+                run.count("backups_with_one_refused_write", 1);
+                if b4.ok() {
+                    run.count("backups_that_went_on_after_a_refused_write", 1);
+                }
+                let raw = fmt06::read_archive(&a4, false);
+                for (id, band) in &raw.bands {
+                    let own = band.own_entries();
+                    run.count("hunk_entries_decoded", own.len() as u64);
+                    if let Some((a, b)) = first_disorder(own.iter().map(|e| e.apath.as_str())) {
+                        run.violation(
+                            "index-out-of-order:after-a-refused-write",
+                            format!("backup ({}) whose write #{k} of {path} failed with {kind:?} returned {}: the index of b{id:04} has {a:?} before {b:?}", o.label(), b4.describe()),
+                            json!({"kind": "emit", "case": case}),
+                        );
+                        return;
+                    }
+                    if band.head_raw.is_none() {
+                        continue;
+                    }
+                    let l = cs::list(cs::local(&a4), Some(*id), "/", &[]);
+                    if let Some(v) = l.value() {
+                        run.count("listed_entries", v.len() as u64);
+                        if let Some((a, b)) = first_disorder(v.iter().map(|e| e.apath.as_str())) {
+                            run.violation(
+                                "listing-out-of-order:after-a-refused-write",
+                                format!("backup ({}) whose write #{k} of {path} failed with {kind:?}: listing b{id:04} has {a:?} before {b:?}", o.label()),
+                                json!({"kind": "emit", "case": case}),
+                            );
+                            return;
+                        }
+                    }
+                }
+                crate::scratch::rm(&a4);
+            }
+        }
         run.nontrivial(tree::tree_sig(&snap));
         run.sample(|| json!({"emitter_case": case, "options": o.label(), "walked": walked.iter().take(12).collect::<Vec<_>>()}));
     });
